@@ -524,7 +524,10 @@ pub fn chain(img: &Store, g: &Geo, first: u32, limit: u32) -> (Vec<u32>, Option<
             return (out, None);
         }
         if v == 0 {
-            return (out, Some(fnd("link-to-free", format!("cluster {} is marked free but on a chain", c))));
+            // the first cluster comes from a directory entry (which several operations update last); any later one from
+            // an allocated table entry -- no single operation, however it is interrupted, leaves that behind
+            let kind = if out.len() > 1 { "chain-link-to-free" } else { "link-to-free" };
+            return (out, Some(fnd(kind, format!("cluster {} is marked free but on a chain", c))));
         }
         if v == g.bad_mark() {
             return (out, Some(fnd("link-to-bad", format!("cluster {} -> bad marker", c))));
@@ -742,8 +745,10 @@ pub fn parse_with(img: &Store, g: Geo) -> Result<Parsed, String> {
         for c in &chain_c {
             if let Some(prev) = p.owner.insert(*c, oi) {
                 if prev != oi {
+                    // two entries naming one and the same chain, as opposed to two different chains running into each other
+                    let kind = if p.objs[prev].first_cluster == p.objs[oi].first_cluster { "duplicate-entry" } else { "cross-link" };
                     p.findings.push(fnds(
-                        "cross-link",
+                        kind,
                         format!("cluster {} claimed by {} and {}", c, path_str(&p.objs[prev].path), path_str(&p.objs[oi].path)),
                         vec![path_str(&p.objs[prev].path), path_str(&p.objs[oi].path)],
                     ));
